@@ -943,7 +943,7 @@ pub fn c07_plan(tier: Tier) -> Plan {
     }
     // 2..8 threads sharing the connection
     {
-        let n = if tier == Tier::Quick { 12_000 } else { 400_000 };
+        let n = if tier == Tier::Quick { 40_000 } else { 1_500_000 };
         let specs = all_specs();
         spaces.push(Space {
             name: "K.threads.random",
@@ -964,7 +964,7 @@ pub fn c07_plan(tier: Tier) -> Plan {
     }
     // fault-injecting configuration: EINTR on client reads, server closing in mid-stream
     {
-        let n = if tier == Tier::Quick { 4_000 } else { 100_000 };
+        let n = if tier == Tier::Quick { 12_000 } else { 400_000 };
         let specs = all_specs();
         spaces.push(Space {
             name: "K.threads.faults",
@@ -1028,7 +1028,7 @@ pub fn c05_spaces(tier: Tier) -> Vec<Space> {
         });
     }
     {
-        let n = if tier == Tier::Quick { 4_000 } else { 100_000 };
+        let n = if tier == Tier::Quick { 12_000 } else { 300_000 };
         let specs = all_specs();
         spaces.push(Space {
             name: "K.stream.segmented",
@@ -1088,7 +1088,7 @@ pub fn c04_spaces(tier: Tier) -> Vec<Space> {
         });
     }
     {
-        let n = if tier == Tier::Quick { 2_000 } else { 50_000 };
+        let n = if tier == Tier::Quick { 6_000 } else { 150_000 };
         let specs = all_specs();
         spaces.push(Space {
             name: "K.oneway.threads",
